@@ -27,6 +27,10 @@ func runC05(c *Ctx) {
 	c.ruleCloseSiblings("R05.4", false)
 	c.ruleResponse("R05.5")
 	c.ruleLastFinisher("R05.6")
+	// Wait is released, and the outcome stream closed, only by the Close that won its transition
+	c.ruleCloseEffectsNeedWin("R05.7")
+	// a batch's Wait returns only if every refused item is counted off
+	c.ruleSubmitPaths("R05.8", submitChecks{reject: true})
 }
 
 func (c *Ctx) ruleCompletionOrder(rule string) {
